@@ -297,6 +297,60 @@ func runC05(w *W) {
 		"SELECT $$he;re$$, $tag$ x $tag$, x'4142', {p:UInt8} /* €€€€ */ , 'a\\'b' -- é\n , 3",
 		"WITH 1 AS x /**/ SELECT x/**/UNION/**/ALL/**/SELECT 2 /* end */",
 	}
+	// long comments: a comment is layout whatever its length (line comments and block comments whose length sits around the
+	// read-buffer sizes, between the tokens of a short statement)
+	{
+		baseSQL := "SELECT 1 , 2 FROM t WHERE a >= 1"
+		base := safeParse([]byte(baseSQL), 1<<22)
+		var lens []int
+		for _, m := range []int{4096, 8192} {
+			for d := -12; d <= 4; d++ {
+				lens = append(lens, m+d)
+			}
+		}
+		lens = append(lens, 20000, 70000)
+		if !base.Panicked && base.Err == nil && len(base.Stmts) == 1 {
+			want := safeExplain(base.Stmts[0]).Out
+			for _, n := range lens {
+				for ci, mk := range []func(int) string{
+					func(n int) string { return " --" + strings.Repeat("c", n) + "\n" },
+					func(n int) string { return " #" + strings.Repeat("c", n) + "\n" },
+					func(n int) string { return " /*" + strings.Repeat("c", n) + "*/ " },
+					func(n int) string { return " -- é" + strings.Repeat("c", n) + "\n" },
+					func(n int) string { return " /* /* " + strings.Repeat("*", n) + " */ */ " },
+				} {
+					idx, mine := w.Case()
+					if !mine {
+						continue
+					}
+					alt := "SELECT 1" + mk(n) + ", 2 FROM t" + mk(n/2) + "WHERE a >= 1"
+					w.Begin(idx, []byte(alt), fmt.Sprintf("long-comment:%d:%d", ci, n))
+					w.Eval([]byte(alt), true)
+					w.Count("long-comment-relayouts")
+					obs := safeParse([]byte(alt), 1<<22)
+					fail := ""
+					switch {
+					case obs.Panicked:
+						fail = "panic: " + obs.PanicVal
+					case obs.Budget:
+						fail = "did not terminate"
+					case obs.Err != nil:
+						fail = "error: " + trunc(obs.Err.Error(), 300)
+					case len(obs.Stmts) != 1:
+						fail = fmt.Sprintf("%d statements instead of 1", len(obs.Stmts))
+					default:
+						if e := safeExplain(obs.Stmts[0]); e.Panicked || e.Out != want {
+							fail = "EXPLAIN differs: " + firstLineDiff(want, e.Out)
+						}
+					}
+					if fail != "" {
+						w.Report(Finding{Kind: "layout", Key: "layout@long-comment", Input: fmt.Sprintf("%q", trunc(alt, 120)+"…"), InputHex: hexs([]byte(alt)),
+							Detail: fmt.Sprintf("original: %q with comments of %d and %d bytes (form %d) between its tokens\n%s", baseSQL, n, n/2, ci, fail)})
+					}
+				}
+			}
+		}
+	}
 	for si, ws := range windowStmts {
 		base := safeParse([]byte(ws), 1<<22)
 		if base.Panicked || base.Err != nil || len(base.Stmts) == 0 {
